@@ -76,6 +76,9 @@ def solve_and_judge(case, which, in_situ=True):
             rec.count('models.judged.with_' + opt)
     if sum(1 for z in spec['zones'] if z['kind'] == 'federation' and sum(1 for c in z['countries'] if c.get('cap')) >= 2):
         rec.count('models.judged.with_capitalists_in_several_regions_of_a_zone')
+    if any(z['gov'].get('bonds') and any(c.get('hh', {}).get('bond_share') for c in z['countries'] if c['role'] != 'central')
+           for z in spec['zones']):
+        rec.count('models.judged.with_three_asset_portfolio')
     if case.get('build_opts', {}).get('codes'):
         rec.count('models.judged.with_prefix_related_market_codes_and_household_in_both')
     if getattr(b, 'weightings_reused', 0):
@@ -102,7 +105,11 @@ def gen_case(rng, idx, tier, emphasis=None):
         spec = M.gen_spec(rng, n_zones=nz, ext=True)
         if not (spec['gifts'] or spec['imports']):
             spec = M.gen_spec(rng, n_zones=nz, ext=True)
-    elif r in (0, 1):
+    elif r == 1:
+        # portfolios over three assets (deposits, bonds, money as the residual) through the weighting helper
+        spec = M.gen_spec(rng, n_zones=rng.choice([1, 1, 2]))
+        M.force_three_asset_portfolio(rng, spec)
+    elif r == 0:
         spec = M.gen_spec(rng, n_zones=1)
     elif r == 2:
         # two zones trading with each other, built while unrelated Model() objects come and go
@@ -150,7 +157,8 @@ class C01(object):
                          'models.judged.with_interleave_model', 'models.judged.with_deposit_market_away_from_its_issuer',
                          'models.judged.with_cross_zone_supplier_and_interleaved_models', 'models.judged.with_run_via_steps',
                          'models.judged.with_prefix_related_market_codes_and_household_in_both',
-                         'models.judged.with_capitalists_in_several_regions_of_a_zone')
+                         'models.judged.with_capitalists_in_several_regions_of_a_zone',
+                         'models.judged.with_three_asset_portfolio')
     which = ('zone', 'ledger')
 
     def n_cases(self, tier):
